@@ -19,7 +19,7 @@ sel = st.integers(0, 1000)
 
 CALLS = ['trace', 'trace_object', 'trace_generic_scalar', 'trace_generic_array', 'paraxial', 'aberrations', 'wavefront', 'psf', 'mtf',
          'spot', 'rayfan', 'encircled', 'distortion', 'grid_distortion', 'field_curvature', 'rms_spot_field',
-         'rms_wave_field', 'pupil_aberration', 'paraxial_trace', 'zernike_opd', 'geometric_mtf']
+         'rms_wave_field', 'pupil_aberration', 'paraxial_trace', 'zernike_opd', 'geometric_mtf', 'opd_map', 'opd_fan']
 
 
 def call_strategy():
@@ -121,6 +121,14 @@ def do_call(o, c, spec, keep_args=None, env=None):
         from optiland.wavefront import Wavefront
         wf = Wavefront(o, fields=[fld], wavelengths=[w], num_rays=3 + c['a'] % 3, distribution='hexapolar')
         return flat(wf.data)
+    if name == 'opd_map':
+        from optiland.wavefront import OPD
+        q = OPD(o, fld, w, num_rings=3 + c['a'] % 3)
+        return flat([q.data, q.rms()])
+    if name == 'opd_fan':
+        from optiland.wavefront import OPDFan
+        q = OPDFan(o, fields=[fld], wavelengths=[w], num_rays=7)
+        return flat(q.data)
     if name == 'zernike_opd':
         from optiland.wavefront import ZernikeOPD
         z = ZernikeOPD(o, fld, w, num_rings=4, zernike_type=['fringe', 'standard', 'noll'][c['a'] % 3], num_terms=15)
@@ -182,7 +190,7 @@ class C13(Check):
     rule = ('cases: a generated imaging lens (with vignetting factors, simple coatings, optional polarization state) and a '
             'generated history of 4-14 calls from {trace (5 distributions, by name or as a caller-owned Distribution object kept through the history), trace_generic scalar/array, paraxial accessors, '
             'aberrations, Wavefront, ZernikeOPD, FFTPSF, FFTMTF, GeometricMTF, SpotDiagram, RayFan, EncircledEnergy, '
-            'Distortion, GridDistortion, FieldCurvature, RmsSpotSizeVsField, RmsWavefrontErrorVsField, PupilAberration, '
+            'Distortion, GridDistortion, FieldCurvature, RmsSpotSizeVsField, RmsWavefrontErrorVsField, PupilAberration, OPD, OPDFan, '
             'paraxial.trace}; invariants after every call: (i) serialised lens unchanged, (ii) a repeated call returns '
             'bit-identical arrays and the same call on a never-used twin lens returns the same, (iii) caller arrays '
             'unchanged, (iv) a ray traced alone equals the same ray inside a batch. Non-trivial: >=4 calls of >=3 kinds with '
